@@ -14,7 +14,7 @@ def run_demo(tree, demo):
 
 def main(pids):
     for pid in pids:
-        base = f"{os.environ.get("SEED_BASE", "/tmp/seed")}/{pid}/seed_out"
+        base = os.environ.get("SEED_BASE", "/tmp/seed") + f"/{pid}/seed_out"
         if not os.path.isdir(base):
             print(pid, "no seed_out")
             continue
@@ -22,7 +22,7 @@ def main(pids):
             d = os.path.join(base, k)
             if not os.path.isfile(os.path.join(d, "patch.diff")):
                 continue
-            sid = f"{pid}-{os.environ.get("SEED_TAG", "")}{k}"
+            sid = f"{pid}-" + os.environ.get("SEED_TAG", "") + str(k)
             out = os.path.join(ROOT, "seeded", sid)
             clean = tempfile.mkdtemp(prefix="seedclean.")
             patched = tempfile.mkdtemp(prefix="seedpatch.")
